@@ -332,3 +332,15 @@ func IfStr(c bool, a, b string) string {
 	}
 	return b
 }
+
+// LockCount is the number of sync.Mutex / RWMutex lock acquisitions executed so far
+// (symbolically; natively it is not tracked and is 0 - assertions using it hold trivially only
+// if written as differences that are compared under Symbolic()).
+func LockCount() int { return lockCount }
+
+var lockCount int
+
+// AssertSym is an assertion over observations only the symbolic executor has (for example the
+// number of lock acquisitions). Natively it does nothing; a counterexample is confirmed by
+// re-executing the real code concretely inside the executor.
+func AssertSym(label string, b bool) {}
